@@ -19,6 +19,13 @@ structure Facts where
   emptySegGuard : Bool
   /-- TryNewAnyDataProvider converts named map types instead of type-asserting them -/
   mapConvert : Bool
+  /-- UnwrapPtr (Preprocess) stops at a nil pointer instead of dereferencing it -/
+  unwrapNilGuard : Bool
+  /-- StructDataProvider reads fields with FieldByIndexErr: a field promoted through a nil embedded
+      pointer is absent -/
+  embeddedNilGuard : Bool
+  /-- zjson.Decode checks for a nil reader (a request built without a body) -/
+  nilBodyGuard : Bool
 deriving DecidableEq, Repr
 
 inductive Outcome where
@@ -84,8 +91,23 @@ def toProvider (f : Facts) : Kind → Outcome
   | .func_ => .issue
   | .slice_ => .issue
 
+/-- `Preprocess`: the function's result goes through `UnwrapPtr` before the wrapped schema sees it -/
+def unwrapPtr (f : Facts) : Kind → Outcome
+  | .nilPtr => if f.unwrapNilGuard then .ok else .panic "Interface() on the zero Value (nil pointer unwrapped)"
+  | .ptrTo k => unwrapPtr f k
+  | _ => .ok
+
+/-- reading a field of an input struct that is promoted through an embedded pointer -/
+def readPromotedField (f : Facts) (embeddedIsNil : Bool) : Outcome :=
+  if embeddedIsNil && !f.embeddedNilGuard then .panic "indirection through nil pointer to embedded struct" else .ok
+
+/-- decoding the body of a JSON request (`r.Body` is nil when the request was built without one) -/
+def decodeBody (f : Facts) (bodyIsNil : Bool) : Outcome :=
+  if bodyIsNil then (if f.nilBodyGuard then .issue else .panic "nil pointer dereference in the decoder") else .ok
+
 def FactsOK (f : Facts) : Prop :=
-  f.keyBufGuard = true ∧ f.nilProvGuard = true ∧ f.unexportedGuard = true ∧ f.emptySegGuard = true ∧ f.mapConvert = true
+  f.keyBufGuard = true ∧ f.nilProvGuard = true ∧ f.unexportedGuard = true ∧ f.emptySegGuard = true ∧ f.mapConvert = true ∧
+  f.unwrapNilGuard = true ∧ f.embeddedNilGuard = true ∧ f.nilBodyGuard = true
 
 instance (f : Facts) : Decidable (FactsOK f) := by unfold FactsOK; infer_instance
 
